@@ -521,30 +521,98 @@ func init() {
 		p, _ := m.Extra["flagsParsed"].(bool)
 		return m.S.Bool(p)
 	})
-	// sync/atomic: sequentially consistent loads/stores on cells
+	// sync/atomic: sequentially consistent operations on cells. Every atomic operation is a
+	// scheduling point; it acquires and releases the happens-before clock attached to its cell and
+	// is itself exempt from the data-race check (m.atomicOp).
 	for _, n := range []string{"LoadPointer", "LoadInt32", "LoadInt64", "LoadUint32", "LoadUint64", "LoadUintptr"} {
-		reg("sync/atomic."+n, func(m *Machine, fn *ssa.Function, a []Value) Value { return m.load(a[0].(Ptr)) })
+		reg("sync/atomic."+n, func(m *Machine, fn *ssa.Function, a []Value) Value {
+			var r Value
+			m.atomicOp(a[0].(Ptr), func() { r = m.load(a[0].(Ptr)) })
+			return r
+		})
 	}
 	for _, n := range []string{"StorePointer", "StoreInt32", "StoreInt64", "StoreUint32", "StoreUint64", "StoreUintptr"} {
-		reg("sync/atomic."+n, func(m *Machine, fn *ssa.Function, a []Value) Value { m.store(a[0].(Ptr), a[1]); return nil })
+		reg("sync/atomic."+n, func(m *Machine, fn *ssa.Function, a []Value) Value {
+			m.atomicOp(a[0].(Ptr), func() { m.store(a[0].(Ptr), a[1]) })
+			return nil
+		})
+	}
+	for _, n := range []string{"SwapPointer", "SwapInt32", "SwapInt64", "SwapUint32", "SwapUint64", "SwapUintptr"} {
+		reg("sync/atomic."+n, func(m *Machine, fn *ssa.Function, a []Value) Value {
+			var old Value
+			m.atomicOp(a[0].(Ptr), func() {
+				old = m.load(a[0].(Ptr))
+				m.store(a[0].(Ptr), a[1])
+			})
+			return old
+		})
 	}
 	for _, n := range []string{"AddInt32", "AddInt64", "AddUint32", "AddUint64", "AddUintptr"} {
 		reg("sync/atomic."+n, func(m *Machine, fn *ssa.Function, a []Value) Value {
-			v := m.S.Add(m.load(a[0].(Ptr)).(*Term), a[1].(*Term))
-			m.store(a[0].(Ptr), v)
+			var v *Term
+			m.atomicOp(a[0].(Ptr), func() {
+				v = m.S.Add(m.load(a[0].(Ptr)).(*Term), a[1].(*Term))
+				m.store(a[0].(Ptr), v)
+			})
 			return v
 		})
 	}
 	for _, n := range []string{"CompareAndSwapInt32", "CompareAndSwapInt64", "CompareAndSwapUint32", "CompareAndSwapUint64", "CompareAndSwapPointer", "CompareAndSwapUintptr"} {
 		reg("sync/atomic."+n, func(m *Machine, fn *ssa.Function, a []Value) Value {
-			cur := m.load(a[0].(Ptr))
-			if m.Branch(m.valEq(cur, a[1])) {
-				m.store(a[0].(Ptr), a[2])
-				return m.S.True
-			}
-			return m.S.False
+			var res *Term
+			m.atomicOp(a[0].(Ptr), func() {
+				cur := m.load(a[0].(Ptr))
+				if m.Branch(m.valEq(cur, a[1])) {
+					m.store(a[0].(Ptr), a[2])
+					res = m.S.True
+				} else {
+					res = m.S.False
+				}
+			})
+			return res
 		})
 	}
+	// sync.Pool: Get returns one of the items put earlier (any of them) or a new one from New; Put
+	// synchronizes with the Get that returns the item.
+	reg("(*sync.Pool).Get", func(m *Machine, fn *ssa.Function, a []Value) Value {
+		m.Yield(nil, "Pool.Get")
+		pool := a[0].(Ptr)
+		st := m.poolState(pool)
+		k := m.Choose(len(st.items)+1, "pool item")
+		if k < len(st.items) {
+			it := st.items[k]
+			st.items = append(append([]poolItem{}, st.items[:k]...), st.items[k+1:]...)
+			t := m.Sched.cur
+			for tid, c := range it.vc {
+				if t.vc[tid] < c {
+					t.vc[tid] = c
+				}
+			}
+			return it.v
+		}
+		// the New field
+		pt := pool.Obj.T.Underlying().(*types.Struct)
+		for i := 0; i < pt.NumFields(); i++ {
+			if pt.Field(i).Name() == "New" {
+				if cl, ok := (*m.cell(pool)).(*StructV).F[i].(*Closure); ok && cl != nil {
+					return m.CallClosure(cl, nil)
+				}
+			}
+		}
+		return Iface{}
+	})
+	reg("(*sync.Pool).Put", func(m *Machine, fn *ssa.Function, a []Value) Value {
+		m.Yield(nil, "Pool.Put")
+		st := m.poolState(a[0].(Ptr))
+		t := m.Sched.cur
+		vc := map[int]int{}
+		for k, v := range t.vc {
+			vc[k] = v
+		}
+		t.vc[t.id]++
+		st.items = append(st.items, poolItem{v: a[1], vc: vc})
+		return nil
+	})
 	sortSlice := func(m *Machine, fn *ssa.Function, a []Value) Value {
 		sl, ok := a[0].(Iface).V.(Slice)
 		if !ok {
